@@ -210,6 +210,9 @@ def callStep (d : List Name) (n : Name) : Call → List Eff × Res
   | .inplace ok => ([], if ok then .ok else .failed)
   | .read ok => ([], if ok then .ok else .failed)
 
+/-- `open(O_CREAT)` without `O_EXCL`: a directory entry appears only when there was none -/
+def creatIfAbsent (d : List Name) (n : Name) : List Eff := if n ∈ d then [] else [.creat n]
+
 /-- one API step: new state, the directory effects in order, the answer -/
 def step (s : St) : Op → St × List Eff × Res
   | .create n f =>
@@ -218,9 +221,9 @@ def step (s : St) : Op → St × List Eff × Res
       | none =>
         match f with
         | .io => (s, [], .io)
-        | .lock => ({ s with dir := add n s.dir }, [.creat n], .lock)
-        | .late => ({ s with dir := add n s.dir }, [.creat n], .late)
-        | .none => ({ dir := add n s.dir, handles := n :: s.handles }, [.creat n], .ok)
+        | .lock => ({ s with dir := add n s.dir }, creatIfAbsent s.dir n, .lock)
+        | .late => ({ s with dir := add n s.dir }, creatIfAbsent s.dir n, .late)
+        | .none => ({ dir := add n s.dir, handles := n :: s.handles }, creatIfAbsent s.dir n, .ok)
   | .open n ro f =>
       match (if (if ro then guard_open_read_only_with_options else guard_open)
              then ensureSingleFile s.dir n else none) with
